@@ -759,6 +759,41 @@ fn main() {
         })
         .reduce(LocalClasses::new, |a, b| a.merge(b));
     run.merge_classes(lc);
+    // well-formed files whose index part (header, tables, items) lies around and beyond the 8 KiB
+    // the file reader buffers at a time: every item count 470..=560 (16 bytes of index each) and a few
+    // large ones, returned exactly through the in-memory callbacks and through the real file path
+    {
+        let mut counts: Vec<usize> = (470..=560).collect();
+        counts.extend([1000usize, 1023, 1024, 1025, 2100, 5000]);
+        let cases: Vec<(usize, i32)> = counts.iter().flat_map(|&n| [(n, 3), (n, 4)]).collect();
+        let lc = cases
+            .par_iter()
+            .fold(LocalClasses::new, |mut lc, &(n, version)| {
+                let items: Vec<(u16, Vec<i32>)> = (0..n).map(|i| (i as u16, vec![i as i32 * 7 - 3])).collect();
+                let half = n / 2;
+                let df = Df {
+                    version,
+                    types: vec![(3, items[..half].to_vec()), (0x7fff, items[half..].to_vec())],
+                    data: vec![b"first".to_vec(), vec![0x5a; 3000], vec![]],
+                };
+                let bytes = bytes_of(&build(&df));
+                for (what, r) in [("large-index", vp_core::catch(|| traverse_raw(&bytes, Some(&df)))), ("large-index-file", vp_core::catch(|| traverse_file(&bytes, Some(&df))))] {
+                    lc.eval();
+                    match r {
+                        Ok(Ok(_)) => lc.class(&format!("{}:v{}:{}", what, version, if n < 520 { "below-8KiB" } else if n <= 1025 { "8..16KiB" } else { "beyond-16KiB" }), || json!({"items": n})),
+                        Ok(Err(d)) => {
+                            run.violation(&format!("c16:{}:{}", what, d.split(|c: char| c.is_ascii_digit() || c == '(').next().unwrap_or("").trim()), &format!("{} items, version {}: {}", n, version, d), json!({"items": n, "version": version}));
+                        }
+                        Err(p) => {
+                            run.violation(&format!("c16:{}:{}", what, vp_core::panic_sig(&p)), &format!("{} items, version {}: {}", n, version, p), json!({"items": n, "version": version}));
+                        }
+                    }
+                }
+                lc
+            })
+            .reduce(LocalClasses::new, |a, b| a.merge(b));
+        run.merge_classes(lc);
+    }
     // double corruptions of table words (thorough) on a few files
     if thorough {
         let picks: Vec<&Df> = family.iter().filter(|d| d.types.len() == 2 && d.data.len() == 2).take(if deep { 40 } else { 6 }).collect();
@@ -874,7 +909,7 @@ fn main() {
     }
     run.assume("files are presented to raw::Reader through in-memory callbacks (datafile level) and to datafile::Reader::new(File) / map::Reader::from_datafile through a memfd (file reader and map level); the in-memory callback refuses data buffers above 64 MiB");
     run.finish(
-        "an independent v3/v4 writer (doc/datafile.md, zlib via the repository's binding) produces a family of well-formed files (0-3 item types, 0-2 items each with 0-3 words, 0-3 data blocks) which must be returned exactly; every header / type-table / offset / size / item word set to ~20 boundary values and all pairs on 6 selected files (thorough: 40 files), truncation at every byte, data byte flips, magic variants, mutually consistent tables that announce one item or data block more than is stored (offset at and around the end of the section); a hand-built valid map (version, info, images, envelope, groups, tile/tele/quad/sound layers, a sound) with every item word set to 18 boundary values and pairs of words up to 5 apart (thorough: up to 13 apart) and data blocks resized; after opening, every accessor of the datafile and map readers is called and every index a layer hands out (image, envelope, sound, data) must lie in the range of its kind and is followed",
+        "an independent v3/v4 writer (doc/datafile.md, zlib via the repository's binding) produces a family of well-formed files (0-3 item types, 0-2 items each with 0-3 words, 0-3 data blocks) and files with 470..560 / 1000..5000 items (index around and beyond the file reader's 8 KiB buffer) which must be returned exactly through the in-memory callbacks and through the real file path; every header / type-table / offset / size / item word set to ~20 boundary values and all pairs on 6 selected files (thorough: 40 files), truncation at every byte, data byte flips, magic variants, mutually consistent tables that announce one item or data block more than is stored (offset at and around the end of the section); a hand-built valid map (version, info, images, envelope, groups, tile/tele/quad/sound layers, a sound) with every item word set to 18 boundary values and pairs of words up to 5 apart (thorough: up to 13 apart) and data blocks resized; after opening, every accessor of the datafile and map readers is called and every index a layer hands out (image, envelope, sound, data) must lie in the range of its kind and is followed",
         true,
     );
 }
